@@ -32,7 +32,7 @@ class Prop(PropBase):
         "C01_pipeline_in_range", "C01_no_start", "C01_crop_interval", "C01_shift_crop",
         "C01_contains_sound", "C01_contains_complete", "C01_contains_no_start",
         "C01_contains_empty", "C01_error_accum", "C01_source_formulas")]
-    trusted_base = [
+    trusted_base = ["pbverif/extract.py: symbolic evaluation of the method bodies into PbModel/Gen/Time.lean (trusted to render the source expressions faithfully; tied to the hand model by the C01_source_* theorem)", 
         "PbModel/Crop.lean: hand transliteration of Signal._time_slice/__getitem__/like, fast_len, "
         "time_shift crop bounds, snippet; tied by the correspondence run",
         "astropy Time and Quantity float arithmetic (stamps validated within a stated tolerance, not proved)",
